@@ -254,3 +254,72 @@ Proof.
     split; [exact G|]. split; [exact S1|]. split; [exact E1|]. split; [exact E2|]. split; [exact LO|]. split; [exact FO|].
     apply (CIb_done_ok _ _ I1). rewrite EN. apply (NQ_quiet _ _ Q).
 Qed.
+
+(* ---- the suspended thread: steps of the nested walk ---- *)
+Lemma rc3_rc_ok ms t r c : rc3 ms t r c -> rc_ok ms t r c = true.
+Proof.
+  intros (H1 & H2 & H3). unfold rc_ok. apply Nat.ltb_lt in H1. fold (nc ms). rewrite H1, H2. cbn.
+  destruct r; auto; try contradiction. destruct H3 as [-> ->]. rewrite Nat.eqb_refl. reflexivity.
+Qed.
+
+Lemma vpc_CClose p : pcG p = true -> vpc p = CClose -> p = GClose.
+Proof. destruct p; cbn; intros; try discriminate; reflexivity. Qed.
+
+Lemma bview_same ms ms' t t' r c ws : grows_to ms ms' -> CIb ms (bview t r c ws) ->
+  same_ctl (bview t r c ws) (bview t' r c ws) -> CIb ms' (bview t' r c ws).
+Proof. intros G I S. eapply CIb_cong; [exact S|]. eapply CIb_mono; eauto. Qed.
+
+(* the nested close: back to the base activity *)
+Lemma core3_close ms t ms' t' r c w ws : MW ms -> m_walks t = w :: ws -> w_own w = Some (r, c) ->
+  CIb ms (bview t r c ws) -> NW ms t r c w -> m_pc t = MClose ->
+  mstep_core ms t = (ms', t') -> step3 ms t ms' t'.
+Proof.
+  intros W Hw Ho IB (Gr & NL & RC & _ & g0 & P2 & PG & NN & QC & PH) Hpc H.
+  rewrite Hpc in PH. pose proof RC as (Hc & Hcl & Hr). pose proof (rc3_len _ _ _ _ RC) as RL.
+  pose proof (MW_MS _ W) as (M1 & M4 & M5).
+  unfold mstep_core in H. rewrite Hpc, Hw, Ho in H.
+  set (O := gett t r c) in *.
+  assert (OG : t_pc O = GClose).
+  { apply vpc_CClose; [exact PG|]. specialize (PH c Hc). unfold VF in PH. rewrite Nat.eqb_refl in PH. exact PH. }
+  fold (nest_others ms c t) in H.
+  destruct (step_thread np0 (proj c ms) O) as [s' u'] eqn:Es.
+  assert (OK : pc_is (t_pc O) GClose && is_some (t_prev2 O) &&
+               alli (fun j v => Nat.eqb j c || pc_is (t_pc v) CClose && onat_eqb (t_prev v) (t_prev2 O)) (m_nest t) = true).
+  { rewrite OG, P2. cbn [pc_is is_some andb]. apply (alli_of_nth _ dflt). intros j Hj. rewrite NL in Hj.
+    destruct (Nat.eqb j c) eqn:Ej; [reflexivity|]. apply Nat.eqb_neq in Ej. cbn [orb].
+    specialize (PH j Hj). unfold VF in PH. apply Nat.eqb_neq in Ej. rewrite Ej in PH. apply Nat.eqb_neq in Ej.
+    destruct (NN j Hj Ej) as (_ & Pj & _). rewrite PH, Pj. cbn. rewrite Nat.eqb_refl. reflexivity. }
+  rewrite OK in H. cbn [negb] in H. rewrite set_chk_false in H. injection H as <- <-.
+  pose proof (step_gclose np0 (proj c ms) O g0 OG P2) as FP. rewrite Es in FP. cbn [fst] in FP.
+  destruct (step_gclose_thr np0 (proj c ms) O OG) as (U1 & U2 & U3 & U4 & U5). rewrite Es in U1, U2, U3, U4, U5. cbn [fst snd] in *.
+  assert (G : grows_to ms (inj c ms s')) by (split; [unfold nc, inj; cbn; apply upd_len | auto]).
+  assert (S' : MS (inj c ms s')).
+  { unfold MS, nc, inj. cbn [ms_claimed ms_ctrs ms_nf ms_full ms_tight]. rewrite upd_len. split; [exact M1|]. split.
+    - apply Forall_upd; [exact M4|]. cbn [c_cells]. rewrite U5. cbn [proj s_cells]. rewrite Forall_forall in M4. apply M4. apply nth_In. exact Hc.
+    - unfold file_part in FP. injection FP as _ _ _ F4 F5. rewrite F4, F5. exact M5. }
+  match goal with |- step3 _ _ _ ?T => set (T' := T) end.
+  assert (I1 : CIb (inj c ms s') T').
+  { apply (CIb_mono ms); [exact G|].
+    apply (CIb_cong ms (sett (bview t r c ws) (m_role (bview t r c ws)) (m_c (bview t r c ws)) u')).
+    - unfold T', bview, same_ctl, nest_others. destruct r; try contradiction; cbn; rewrite ?upd_upd; repeat split; auto.
+    - apply CIb_swap; [exact IB | reflexivity|].
+      unfold bview. cbn [m_role m_c with_focus]. fold O.
+      assert (GE : gett (with_focus (with_walks (sett t r c (with_pc O LCas)) MRun ws) MRun r c) r c = with_pc O LCas).
+      { destruct r; cbn; try contradiction; [apply nth_upd_same; exact Hr | reflexivity]. }
+      rewrite GE. unfold sameC. cbn. repeat split; auto. }
+  assert (NS : m_nest T' = mapi (fun j v => if Nat.eqb j c then v else thr_step ms j v) (m_nest t)) by (unfold T', nest_others; destruct r; cbn; try contradiction; reflexivity).
+  assert (FL : m_grown T' = true /\ m_isadd T' = m_isadd t /\ m_k T' = m_k t /\ m_pc T' = MRun) by (unfold T', nest_others; destruct r; cbn; auto).
+  destruct FL as (F1 & F2 & F3 & F4).
+  right. split; [reflexivity|]. split; [reflexivity|]. split.
+  { apply (T3_unsusp _ T' (CIb_not_susp _ _ I1)). split; [exact I1|]. unfold NQ. rewrite F1, NS, mapi_len. destruct G as [-> _].
+    split; [exact NL|]. apply (forallb_of_nth quietb dflt). intros j Hj. rewrite mapi_len, NL in Hj.
+    rewrite nth_mapi by (intros i; destruct (Nat.eqb i c); reflexivity). destruct (Nat.eqb j c) eqn:Ej.
+    - apply Nat.eqb_eq in Ej. subst j. exact QC.
+    - pose proof (PH j Hj) as PJ. unfold VF in PJ. rewrite Ej in PJ. apply Nat.eqb_neq in Ej. destruct (NN j Hj Ej) as (_ & Pj & _).
+      unfold quietb. rewrite (thr_close ms j _ g0 PJ Pj). reflexivity. }
+  split; [exact G|]. split; [exact S'|]. split; [exact F2|]. split; [exact F3|].
+  split. { unfold lens_ok. destruct IB as [LB _]. unfold bview in LB. destruct r; try contradiction; cbn in LB; rewrite ?upd_len in LB;
+           rewrite LB, NL; fold (nc ms); rewrite Nat.eqb_refl; reflexivity. }
+  split. { unfold focus_ok. rewrite Hpc, Hw, Ho. apply rc3_rc_ok. exact RC. }
+  unfold done_ok. rewrite F4. reflexivity.
+Qed.
